@@ -241,10 +241,13 @@ fn partition_mapping_unchanged(p2: &Proof, positions: &[usize], st: &Statement) 
     let mut pos = positions.to_vec();
     for _ in 0..p2.fri_proof.num_layers() {
         pos = fri::folding::fold_positions(&pos, dom, k);
-        let mapped = kit::pan::catch(|| fri::utils::map_positions_to_indexes(&pos, dom, k, parts));
-        match mapped {
-            Ok(m) if m == pos => {},
-            _ => return false,
+        // the documented layout, computed here (not with the library's own mapping function): position p of the folded
+        // domain lives in partition p mod P at local index p div P; partitions hold (domain / folding) / P leaves each
+        let target = dom / k;
+        let psize = target / parts;
+        let same = parts == 1 || pos.iter().all(|p| (p % parts).checked_mul(psize).and_then(|b| b.checked_add(p / parts)) == Some(*p));
+        if !same {
+            return false;
         }
         dom /= k;
     }
